@@ -550,6 +550,16 @@ def c15_f(ctx: Ctx):
         out.append(ctx.viol(R, sp, fire_forget[0], f"the parallel branch starts jobs with {canon(fire_forget[0].value.func)}(...) and never collects the results: an exception raised while "
                             "synchronising a job (FileSyncConflict, DocumentSyncConflict, an I/O error) is discarded, the sync returns normally although that job was not synchronised - "
                             "parallel and sequential runs differ", construct=SP + "|parallel-propagates-errors"))
+    elif inner is not None and par and not seq and [n for n in body_nodes(sp) if isinstance(n, ast.Call) and isinstance(n.func, ast.Name) and n.func.id == "map" and len(n.args) == 2]:
+        # the sequential branch is the built-in map over the same function and list (one consuming loop for both branches)
+        smap = [n for n in body_nodes(sp) if isinstance(n, ast.Call) and isinstance(n.func, ast.Name) and n.func.id == "map" and len(n.args) == 2]
+        pp = [n for n in par if n.args and canon(n.args[0]) == "_clone_or_sync"]
+        okp = pp and all(len(n.args) >= 2 and canon(n.args[1]) == JV for n in pp)
+        oks = all(canon(n.args[0]) == "_clone_or_sync" and canon(n.args[1]) == JV for n in smap)
+        if okp and oks:
+            out.append(ctx.ok(R, sp, pp[0], "parallel (pool.imap) and sequential (map) branches apply _clone_or_sync to the same jobs_to_sync"))
+        else:
+            out.append(ctx.viol(R, sp, (pp or smap)[0], "parallel and sequential branches do not apply the same function to the same job list"))
     elif inner is None or not par or not seq:
         out.append(ctx.inc(R, sp, sp.node, "parallel / sequential application of _clone_or_sync not found"))
     else:
